@@ -40,6 +40,10 @@ func (w *World) join(f *World, buf *bytes.Buffer) {
 // (a conversion touches the common prefix and nothing beyond it) while one more goroutine per writer stores into
 // that last frame through a window of its own.
 func SharedRun(w *World, rng *rand.Rand, ty string, ch, roFrames, wFrames, R, W, opsPer, procs, mode int) {
+	fresh := mode == 5 // the shared read-only buffer is a fresh allocation that nothing has touched, sliced or looked at
+	if fresh {
+		mode = 1
+	}
 	prefix := mode == 4
 	if prefix {
 		mode = 0
@@ -63,7 +67,9 @@ func SharedRun(w *World, rng *rand.Rand, ty string, ch, roFrames, wFrames, R, W,
 		w.WriteFloats(root, fs)
 	}
 	ragged := false
-	if mode == 0 || mode == 3 || roFrames < 2 {
+	if fresh {
+		w.Alloc(ty, ch, roFrames, roFrames)
+	} else if mode == 0 || mode == 3 || roFrames < 2 {
 		w.Slice(root, 0, roFrames)
 	} else {
 		w.Slice(root, 0, roFrames-1)
@@ -235,7 +241,7 @@ func SharedRun(w *World, rng *rand.Rand, ty string, ch, roFrames, wFrames, R, W,
 							f.Drop(nv)
 						}
 					case 4:
-						if mode == 0 {
+						if mode == 0 || fresh {
 							f.ChanSample(ro, r.Intn(ch), r.Intn(roFrames))
 						} else {
 							f.ReadStriped(ro, kt, make([]int, ch), make([]bool, ch))
@@ -351,6 +357,16 @@ func driveShared(s *shardSet, rng *rand.Rand, thorough bool) ([]string, map[stri
 		SharedRun(s.Next(), rng, ty, ch, 1+rng.Intn(4), 1+rng.Intn(3), R, W, ops, procs, i%3)
 		extra["goroutines_max"] = 16
 		extra["concurrent_phases"]++
+	}
+	// fresh shared buffers (mode 5): small allocations nobody touched before the readers start
+	nf := 8
+	if thorough {
+		nf = 40
+	}
+	for i := 0; i < nf; i++ {
+		SharedRun(s.Next(), rng, BuiltinTypes[(i*3)%13], 1+i%4, 1+rng.Intn(8), 1, 2+rng.Intn(7), 1, ops/2, []int{2, 4, 16}[i%3], 5)
+		extra["concurrent_phases"]++
+		extra["fresh_shared_phases"]++
 	}
 	// prefix conversions (mode 4): every conversion family, common prefixes that are not multiples of 2, 4 or 8
 	np := 13
